@@ -393,7 +393,10 @@ impl PayloadHistory {
             match delta.serial().partial_cmp(&serial) {
                 Some(cmp::Ordering::Greater) => return None,
                 Some(cmp::Ordering::Equal) => break,
-                _ => continue
+                Some(cmp::Ordering::Less) => continue,
+                // The serial is exactly half the number space away and
+                // thus cannot be one we have handed out.
+                None => return None,
             }
         }
 
